@@ -85,12 +85,23 @@ def oracle_structure(case: dict) -> Outcome:
         n = math.prod(s)
         t = torch.arange(base, base + n, dtype=torch.float64).reshape(s)
         perm = playout[pi] if pi < len(playout) else None
-        if perm and len(perm) == len(s) and len(s) >= 2 and (not merge or tuple(rm.merge_dims(s, thr, True)) == tuple(s)):
-            # same values and shape, non-row-major memory layout (channels_last / transposed weights); only where param.view(merged dims) is legal
+        if perm and len(perm) == len(s) and len(s) >= 2:
+            # same values and shape, non-row-major memory layout (channels_last / transposed weights); only where param.view(merged dims) is legal for
+            # such a tensor: merging is a no-op, or the fused / dropped dimensions happen to be stride-compatible (H and W of a channels_last kernel)
             inv = [perm.index(i) for i in range(len(perm))]
-            t = t.permute(*perm).contiguous().permute(*inv)
-            if not t.is_contiguous():
-                out.classes.append("non_row_major_parameter")
+            t2 = t.permute(*perm).contiguous().permute(*inv)
+            md_ = tuple(rm.merge_dims(s, thr, True)) if merge else tuple(s)
+            try:
+                t2.view(md_)
+                legal = True
+            except RuntimeError:
+                legal = False
+            if legal:
+                t = t2
+                if not t.is_contiguous():
+                    out.classes.append("non_row_major_parameter")
+                    if md_ != tuple(s):
+                        out.classes.append("non_row_major_parameter_with_shape_changing_merge")
         params.append(torch.nn.Parameter(t))
         base += n
     ok, dist = call_sut(out, "C05.construct", "Distributor(param_group)", lambda: _distributor(params, thr, merge))
